@@ -460,8 +460,9 @@ fn target<A: ?Sized>(a: &Reference<A>) -> Option<*const ()> {
     match a.clone().into_inner() {
         ReferenceUnsafe::RcRefCell(x) => {
             let p = Rc::as_ptr(&x) as *const ();
-            core::mem::forget(x); // keep the count: dropping an Rc<RefCell<dyn ..>> drags in recursive drop glue
-            unsafe { Rc::decrement_strong_count(p as *const RefCell<u8>) };
+            // leak this temporary handle instead of dropping it: dropping an Rc<RefCell<dyn ..>> drags the recursive
+            // drop glue of every vtable candidate into the symbolic execution; the strong count is not asserted on
+            core::mem::forget(x);
             Some(p)
         }
         ReferenceUnsafe::Ptr(p) => Some(p as *const ()),
